@@ -11,6 +11,7 @@
 #include "ref_cavity.h"
 #include "ref_collapse.h"
 #include "ref_fixture.h"
+#include "ref_interp.h"
 #include "ref_metric.h"
 #include "ref_smooth.h"
 #include "ref_split.h"
@@ -306,8 +307,8 @@ static int glob_cmp(const void *a, const void *b) {
 
 /* structural hash of the whole grid: every valid vertex (slot, global id, xyz, metric and log-metric bits), every
    cell of every group (as a multiset: the sum of per-cell hashes), the abstract id pool (unused list united with
-   [new_n_global, infinity) in canonical form) and old_n_global */
-static uint64_t grid_hash(REF_GRID g) {
+   [new_n_global, infinity) in canonical form) and old_n_global; with_metric = 0 leaves the 12 metric entries out */
+static uint64_t grid_hash(REF_GRID g, int with_metric) {
   REF_NODE ref_node = ref_grid_node(g);
   REF_CELL ref_cell;
   REF_INT node, group, cell, nodes[REF_CELL_MAX_SIZE_PER], i, nu;
@@ -317,7 +318,7 @@ static uint64_t grid_hash(REF_GRID g) {
     REF_GLOB gl = ref_node_global(ref_node, node);
     h = fnv(FNV0, &node, sizeof(node));
     h = fnv(h, &gl, sizeof(gl));
-    h = fnv(h, &(ref_node->real[REF_NODE_REAL_PER * node]), sizeof(REF_DBL) * REF_NODE_REAL_PER);
+    h = fnv(h, &(ref_node->real[REF_NODE_REAL_PER * node]), sizeof(REF_DBL) * (with_metric ? REF_NODE_REAL_PER : 3));
     total += h;
   }
   each_ref_grid_all_ref_cell(g, group, ref_cell) {
@@ -400,8 +401,9 @@ static void my_op(const char *phase, const char *kind, void *object, int n, cons
   cells[2] = ref_grid_edg(g);
   collect_star(g, n, ints);
   rec_total++;
-  fprintf(out, "rec %s %s %d %d %d twod=%d hash=%016llx valid=", phase, kind, ints[0], n > 1 ? ints[1] : -1,
-          n > 2 ? ints[2] : -1, ref_grid_twod(g) ? 1 : 0, (unsigned long long)grid_hash(g));
+  fprintf(out, "rec %s %s %d %d %d twod=%d hash=%016llx hashs=%016llx valid=", phase, kind, ints[0],
+          n > 1 ? ints[1] : -1, n > 2 ? ints[2] : -1, ref_grid_twod(g) ? 1 : 0, (unsigned long long)grid_hash(g, 1),
+          (unsigned long long)grid_hash(g, 0));
   for (j = 0; j < 3; j++)
     fprintf(out, "%d", (j < n && ints[j] >= 0 && ref_node_valid(ref_node, ints[j])) ? 1 : 0);
   fprintf(out, " nu=%d utop=%lld oldN=%lld newN=%lld | N", ref_node_n_unused(ref_node),
@@ -490,6 +492,9 @@ static void run_level(void) {
       }
       if (2 == dim) hz = 1.0;
       ref_node_metric_form(ref_node, node, 1.0 / (hx * hx), 0, 0, 1.0 / (hy * hy), 0, 1.0 / (hz * hz));
+    }
+    if (1 == h_i(h_w[3]) % 2) { /* odd seed: with a background grid, vertex moves re-interpolate the metric */
+      if (REF_SUCCESS == ref_grid_cache_background(g)) ref_interp_continuously(ref_grid_interp(g)) = REF_TRUE;
     }
     for (k = 0; k < 8; k++) rec_count[k] = rec_on[k] = 0;
     rec_total = 0;
